@@ -199,6 +199,36 @@ fn capi_names(l: &mut Local, names: &[String], rng: &mut Rng) {
             l.nt(d.get());
         }
     }
+    // the decoder built by the C constructor for a name behaves like the directly constructed generic decoder
+    let m = genm::textbook();
+    let cw = genm::random_codeword(rng, &m);
+    for n in names {
+        println!("CASE C decode {}", n);
+        for k in 0..8 {
+            let class = [7usize, 0, 9, 4][k % 4];
+            let llrs = genm::llr_vector(rng, m.cols, class, Some(&cw));
+            let limit = [0u32, 1, 1, 2, 2, 3, 5, 20][k];
+            let Some(mut dd) = direct(n, m.to_sparse()) else { continue };
+            let want = dd.decode(&llrs, limit as usize);
+            let (wret, wword) = match &want {
+                Ok(o) => (o.iterations as i32, o.codeword.clone()),
+                Err(o) => (-1, o.codeword.clone()),
+            };
+            l.eval();
+            match crate::props::c19::c_decode_once(alist.as_bytes(), n.as_bytes(), &llrs, limit, m.cols) {
+                None => {}
+                Some((ret, out)) => {
+                    if ret != wret || out != wword {
+                        l.violation(
+                            "the decoder built by the C constructor for a name does not behave like the generic decoder the name denotes",
+                            J::obj().set("name", n.clone()).set("llrs", jfs(&llrs)).set("limit", limit).set("c_return", ret).set("c_output", out).set("generic", format!("{:?}", want)),
+                        );
+                        break;
+                    }
+                }
+            }
+        }
+    }
     let mut bad: Vec<String> = vec!["".into(), "phif64".into(), "PHIF64".into(), "Phif64 ".into(), " Phif64".into(), "Phif64\n".into(), "\tAminstari8\r\n".into(), "HLAminstari8Jones".into(), "HLPhif64 ".into(), "Phif".into()];
     for n in names {
         bad.push(format!("{} ", n));
